@@ -52,6 +52,7 @@ func load(repo string, rels []string, specDir string) (*Loaded, error) {
 			// retry without the contracts that failed to bind: keep going with an empty overlay
 			txt = fmt.Sprintf("package %s\n", pc.Name)
 		}
+		ld.bindErrors = append(ld.bindErrors, pc.BindErrors...)
 		ld.overlay[rel] = txt
 		overlay[filepath.Join(repo, rel, "zz_govc_gen.go")] = []byte(txt)
 		if rel == "." {
@@ -120,6 +121,9 @@ func load(repo string, rels []string, specDir string) (*Loaded, error) {
 		pc := ld.pcs[rel]
 		sp := eng.pkgs[pc.Path]
 		for _, fc := range pc.Funcs {
+			if fc.Unbound {
+				continue
+			}
 			fn := findFunc(prog, sp, fc.QualName)
 			if fn == nil {
 				ld.bindErrors = append(ld.bindErrors, fmt.Sprintf("bind:%s.%s: function not found in SSA", pc.Name, fc.QualName))
